@@ -36,10 +36,10 @@ def adjustTxs (tx : Tx) (csfl : Rat) :
     match adjustTxs tx csfl rest with
     | .error f => .error f
     | .ok r =>
-      if n ≠ 0 ∧ ¬ af.registered then
-        if ¬ (0 < n / d) then .error (.panic .afRatioPosUnwrap)
-        else .ok ({ trade := tx.trade, settle := tx.settle, idx := tx.idx, aff := af,
-                    act := .sfla 1 ((-1) * csfl * (n / d)) } :: r)
+      -- `PosDecimal::try_from(-calculated * ratio)`: a zero amount is skipped
+      if ¬ af.registered ∧ 0 < (-csfl) * (n / d) then
+        .ok ({ trade := tx.trade, settle := tx.settle, idx := tx.idx, aff := af,
+               act := .sfla 1 ((-csfl) * (n / d)) } :: r)
       else .ok r
 
 /-- `get_delta_superficial_loss_info`.  `loss < 0` is the unadjusted capital loss. -/
@@ -52,10 +52,8 @@ def deltaSflInfo (t : Tracker) (tx : Tx) (sold : Rat) (spec : Option (Rat × Boo
       match msfl with
       | none => .ok 0
       | some r =>
-        if ¬ (0 < r.num / r.den) then .error (.panic .ratioPosUnwrap)
-        else
-          -- rounds on the plain Decimal; may be zero (a loss far below a cent)
-          .ok (effCent (loss * (r.num / r.den)))
+        -- rounds on the plain Decimal; may be zero (a loss far below a cent)
+        .ok (effCent (loss * (r.num / r.den)))
     match calcE with
     | .error f => .error f
     | .ok csfl =>
